@@ -46,7 +46,7 @@ class Builder:
             return "U %d" % v
         if f == "DW_FORM_implicit_const":
             return "I %d" % v
-        if f in ("DW_FORM_string", "DW_FORM_strp"):
+        if f in ("DW_FORM_string", "DW_FORM_strp", "DW_FORM_line_strp") or f.startswith("DW_FORM_strx"):
             return "STR %s" % bytes(v).hex()
         if f.startswith("DW_FORM_ref"):
             return "REF"                    # the offset is filled in after layout
@@ -162,6 +162,10 @@ def build(version):
     for s in (b"", b"plain", b"high\xff\x80bytes", b"quote\"back\\slash", b"tab\tnew\nline"):
         B.add("DW_TAG_variable", Attr("DW_AT_name", "DW_FORM_string", s), "N")
         B.add("DW_TAG_variable", Attr("DW_AT_linkage_name", "DW_FORM_strp", s), "N")
+        if version >= 5:
+            # indexed strings (.debug_str_offsets) in every index width, and strings of the line table's pool
+            for k, f5 in enumerate(("DW_FORM_strx1", "DW_FORM_strx2", "DW_FORM_strx3", "DW_FORM_strx4", "DW_FORM_strx", "DW_FORM_line_strp")):
+                B.add("DW_TAG_variable", Attr(("DW_AT_name", "DW_AT_linkage_name", "DW_AT_producer")[k % 3], f5, s), "N")
     for f, v in (("DW_FORM_flag", True), ("DW_FORM_flag", False)) + ((("DW_FORM_flag_present", True),) if version >= 4 else ()):
         B.add("DW_TAG_variable", Attr("DW_AT_external", f, v), "N")
         B.add("DW_TAG_variable", Attr("DW_AT_declaration", f, v), "N")
@@ -369,7 +373,7 @@ def run(ctx):
     common.report_broken_obligations(ctx, oblig, bool(ctx.violations))
     ctx.cov.update({
         "evaluations": evaluations, "distinct_nontrivial": total,
-        "rule": "four generated units (DWARF 2, 3, 4, 5), one DIE per combination: DW_AT_const_value x 24 type contexts (10 base types incl. every interpreted and uninterpreted encoding and one without encoding, typedef/const/volatile/restrict chains, pointer, pointer to member, decltype(nullptr), structure, no type, 6 enumerations with/without underlying type and with sdata/udata/mixed/plain enumerators) x forms data1/2/4/8 at 8 boundary values each, sdata (11 values), udata (9), block1 of length 0,1,2,3,4,8, implicit_const (DWARF 5); enumerators of each enumeration; 13 enumerated attributes, line/column and 19 numeric attributes (signed, unsigned, section offsets, vendor range, uninterpreted) x 9 form/value pairs; strings with quote/backslash/control/high bytes in string and strp; flags; addresses; 6 reference forms; locations; file names (decl_file / call_file 0, 1, 2 against a DWARF 5 line table, in data1, data2 and udata form); every one of these values also read with `@AT_x` through a two-link abstract_origin -> specification chain (must equal the attribute read where it is stored)",
+        "rule": "four generated units (DWARF 2, 3, 4, 5), one DIE per combination: DW_AT_const_value x 24 type contexts (10 base types incl. every interpreted and uninterpreted encoding and one without encoding, typedef/const/volatile/restrict chains, pointer, pointer to member, decltype(nullptr), structure, no type, 6 enumerations with/without underlying type and with sdata/udata/mixed/plain enumerators) x forms data1/2/4/8 at 8 boundary values each, sdata (11 values), udata (9), block1 of length 0,1,2,3,4,8, implicit_const (DWARF 5); enumerators of each enumeration; 13 enumerated attributes, line/column and 19 numeric attributes (signed, unsigned, section offsets, vendor range, uninterpreted) x 9 form/value pairs; strings with quote/backslash/control/high bytes in string and strp (DWARF 5: strx1/2/3/4, strx, line_strp); flags; addresses; 6 reference forms; locations; file names (decl_file / call_file 0, 1, 2 against a DWARF 5 line table, in data1, data2 and udata form); every one of these values also read with `@AT_x` through a two-link abstract_origin -> specification chain (must equal the attribute read where it is stored)",
         "samples": [], "model_classes": hist,
         "traces_validated_against_impl": evaluations, "violations_by_kind": viol,
     })
